@@ -61,7 +61,8 @@ def pairs(rng):
     vs = (lo + rng.choice([0, 0.5]) if vl[0] is not None or rng.random() < 0.5 else None,
           hi - rng.choice([0, 0.5]) if vl[1] is not None or rng.random() < 0.5 else None)
     if vs[0] is not None and vs[1] is not None and vs[0] > vs[1]:
-        vs = (vs[1], vs[1])
+        m = vs[1] if vl[0] is None else max(vs[1], vl[0])  # degenerate span that is still nested in the loose one
+        vs = (m, m)
     il = (rng.random() < 0.7, rng.random() < 0.5)
     is_ = (il[0] and rng.random() < 0.6, il[1] and rng.random() < 0.6)
     yield ("valid_range", "nest-span/inclusivity", "axds.valid_range_test",
